@@ -1,12 +1,17 @@
 //! Helpers shared by the property modules.
 
-use crate::engine::{panic_sig, Fail, Obs};
+use crate::engine::{Fail, Obs};
 use crate::fq::{build, BuildCase, BuildErr, Built};
 use crate::gens::version_band;
 
-/// Build; a panic becomes a failure with a location signature.
+/// Build for properties that only speak about symbols that were returned. A documented error *and a
+/// panic* both mean "no symbol": whether the error is the right one is C05's question, and a panic on a
+/// valid input is a violation of C10 (totality) — not of a property quantified over returned symbols.
 pub fn do_build(case: &BuildCase) -> Result<Result<Built, BuildErr>, Fail> {
-    build(case).map_err(|p| Fail { sig: panic_sig(&p), msg: format!("build panicked: {} (case {:?})", p, case) })
+    match build(case) {
+        Ok(r) => Ok(r),
+        Err(_panic) => Ok(Err(BuildErr::Panicked)),
+    }
 }
 
 /// Standard labels for a build case
